@@ -107,6 +107,9 @@ def main(argv):
         if key in seen:
             continue
         seen.add(key)
+        if n >= 12:
+            # more distinct violations than anyone will read: they are counted in the evidence
+            continue
         n += 1
         path = common.write_replay(prop, ctx.seed, n, {"property": prop, "kind": "failing-input", "seed": ctx.seed,
                                                        "tier": tier, "what": v["what"], "vkind": v["kind"], "data": v["data"]})
@@ -134,7 +137,9 @@ def main(argv):
     extra["rule"] = mod.RULE
     extra["notes"] = ctx.notes
     extra["known_findings_reported"] = sorted(reported_known)
-    extra["broken_obligations"] = broken
+    extra["broken_obligations"] = broken[:20]
+    extra["broken_obligations_total"] = len(broken)
+    extra["distinct_violations_found"] = len(seen)
     common.write_evidence(ctx, build, extra, BASE_TRUSTED + list(mod.TRUSTED), nviol)
     for l in lines:
         print(l)
